@@ -131,7 +131,7 @@ def gen_cfg(rnd):
          "inAllowWild": rnd.random() < 0.5, "notAsNotEq": rnd.random() < 0.12,
          "sw": rnd.random() < 0.6, "ew": rnd.random() < 0.6, "ct": rnd.random() < 0.6, "wm": rnd.random() < 0.4,
          "swSpecial": rnd.random() < 0.3, "ewSpecial": rnd.random() < 0.3, "ctSpecial": rnd.random() < 0.3,
-         "cased": rnd.choice(["all", "all", "match"]), "explicitNotExists": rnd.random() < 0.5, "nativeCidr": rnd.random() < 0.5}
+         "cased": rnd.choice(["all", "all", "match", "none"]), "explicitNotExists": rnd.random() < 0.5, "nativeCidr": rnd.random() < 0.5}
     c["prec"] = list(c["prec"])
     return c
 
@@ -163,6 +163,19 @@ def gen_cases(tier, seed, gen, effort):
             conds = [conds, rnd2.choice({2: CONDS_2, 3: CONDS_3}[k])]
         drop = sorted(rnd2.sample(FIELDS + ["ip"], rnd2.choice([1, 2, 2, 3])))
         cases.append({"dets": dets, "cond": conds, "cfg": gen_cfg(rnd2), "drop": drop})
+    # the backend CLASS converted another rule before (negations, every string operator, cased values): class-level templates that a
+    # conversion swaps temporarily must be back in place for the next rule
+    rnd3 = random.Random(seed * 9176 + 3)
+    probes = [{"sel": {"f|cased|endswith": "Ab", "g|endswith": "cd"}}, {"sel": {"f|cased|startswith": "Ab", "g|startswith": "cd"}},
+              {"sel": {"f|cased|contains": "Ab", "g|contains": "cd", "h_1|cased": "Ef"}}, {"sel": {"f|re": "a.b", "g": None, "h_1|exists": True}},
+              {"sel": {"f|cidr": "10.0.0.0/9", "g|gt": 5, "h_1|fieldref": "g"}}]
+    for _ in range((60 if not thorough else 600) * effort):
+        cfg = gen_cfg(rnd3)
+        cfg["notAsNotEq"] = rnd3.random() < 0.7
+        cfg["cased"] = "all"
+        prior = {"dets": {"sel": gen_det(rnd3), "flt": gen_det(rnd3)}, "cond": rnd3.choice(["sel and not flt", "not sel", "not (sel or flt)"])}
+        for dets in probes:
+            cases.append({"dets": dets, "cond": rnd3.choice(["sel", "not sel"]), "cfg": cfg, "prior": prior})
     # all 6 precedences x parenthesize on a fixed rule family (systematic part)
     fam = [({"sel": {"f": "a"}, "flt": {"g": 1}, "sel2": {"h_1|contains": ["x", "y"]}}, c) for c in CONDS_3]
     for dets, cond in fam:
@@ -196,6 +209,12 @@ def run_impl(case):
     try:
         coll = SigmaCollection.from_dicts([{"title": "t", "logsource": {"category": "c"},
                                             "detection": {**case["dets"], "condition": case["cond"]}}])
+        if case.get("prior"):
+            try:
+                backend_for(case["cfg"]).convert(SigmaCollection.from_dicts([{"title": "p", "logsource": {"category": "c"},
+                                                                              "detection": {**case["prior"]["dets"], "condition": case["prior"]["cond"]}}]))
+            except Exception:
+                pass
         b = backend_for(case["cfg"], case.get("drop"))
         qs = b.convert(coll)
         out = {"outcome": "ok", "queries": qs}
@@ -506,7 +525,10 @@ def judge_sem(case, impl, reply):
             return Verdict("violation", f"rule is not admissible per specification ({r['specErr']}: {r.get('detail')}) but was converted to {q!r} :: {case['dets']}", nt, key, tags=tuple(tags))
         if r.get("tooMany"):
             tags.append("unjudged:too-many-atoms"); continue
-        fid = "D6" if cfg["notAsNotEq"] else ("D27" if (cfg["prec"][0] != "not" and not cfg["explicitNotExists"] and _negated_exists(case["dets"])) else None)
+        # D6 (not-equals rendering is unsound) can only be at work where something is negated: a NOT in the condition or a `neq` item
+        negation = any("not" in c_.split() or "not(" in c_.replace(" ", "") for c_ in (case["cond"] if isinstance(case["cond"], list) else [case["cond"]])) \
+            or "neq" in repr(case["dets"]) or _negated_exists(case["dets"])       # `exists: false` is rendered as a NOT from inside the atom
+        fid = "D6" if (cfg["notAsNotEq"] and negation) else ("D27" if (cfg["prec"][0] != "not" and not cfg["explicitNotExists"] and _negated_exists(case["dets"])) else None)
         if r.get("readErr"):
             return Verdict("violation", f"query {q!r} cannot be read with precedence {cfg['prec']} (unbalanced / operator without operand) :: {case['dets']} / {c}", nt, key, finding=fid, tags=tuple(tags))
         if not r["equal"]:
